@@ -387,7 +387,45 @@ func (e *lineEncoder) Encode(s core.Sample) error {
 func (e *lineEncoder) Flush() error { return e.w.Flush() }
 func (e *lineEncoder) Close() error { e.closes.Add(1); return e.w.Flush() }
 
+// encStats is what one run of an encoder aggregator history showed.
+type encStats struct {
+	total, lines, distinct int
+	dropped                int64
+	writes, bytes          int
+	escapedNewline         bool
+}
+
 func checkEnc(c EncCase, o *vf.Obs) error {
+	st, err := encRun(c, nil)
+	if err != nil {
+		return err
+	}
+	total, dropped := st.total, st.dropped
+	if len(c.Reporters) >= 2 || c.Queue < total {
+		o.NonTrivial()
+	}
+	o.Class("kind_" + c.Kind)
+	o.ClassIf(len(c.Reporters) >= 2, "reporters_ge_2")
+	o.ClassIf(c.Queue < total, "queue_lt_reports")
+	o.ClassIf(c.Queue == 1, "queue_1")
+	o.ClassIf(dropped > 0, "drops")
+	o.ClassIf(dropped > 0 && st.lines > 0, "drops_and_lines")
+	o.ClassIf(dropped == 0 && total > 0, "no_drops")
+	o.ClassIf(c.RunDelayUs > 0, "report_before_run")
+	o.ClassIf(st.writes >= 2, "several_writes")
+	o.ClassIf(st.distinct < total, "duplicate_samples")
+	o.ClassIf(total >= 200, "reports_ge_200")
+	o.ClassIf(c.FlushUs > 0 && c.FlushUs <= 3000, "flush_le_3ms")
+	o.ClassIf(st.escapedNewline, "escaped_newline")
+	o.Note("reports", total)
+	o.Note("lines", st.lines)
+	o.Note("dropped", dropped)
+	return nil
+}
+
+// encRun plays one history against a fresh aggregator and applies the whole oracle. memo (may be
+// nil) caches the canonical form of output lines across runs that repeat the same samples.
+func encRun(c EncCase, memo map[string]string) (st encStats, err error) {
 	rec := &recorder{}
 	econf := aggregator.DefaultEncoderAggregatorConfig()
 	econf.Sink = recSink{rec}
@@ -413,7 +451,7 @@ func checkEnc(c EncCase, o *vf.Obs) error {
 			return closer
 		}, econf)
 	default:
-		return fmt.Errorf("harness: unknown kind %q", c.Kind)
+		return st, fmt.Errorf("harness: unknown kind %q", c.Kind)
 	}
 
 	var expected []string
@@ -422,7 +460,7 @@ func checkEnc(c EncCase, o *vf.Obs) error {
 		for _, s := range rep {
 			k, err := s.refKey()
 			if err != nil {
-				return fmt.Errorf("harness: reference encoding of %+v: %v", s, err)
+				return st, fmt.Errorf("harness: reference encoding of %+v: %v", s, err)
 			}
 			for i := 0; i < rounds; i++ {
 				expected = append(expected, k)
@@ -460,10 +498,10 @@ func checkEnc(c EncCase, o *vf.Obs) error {
 		<-runDone
 	})
 	if !ok {
-		return fmt.Errorf("reporters / Run did not finish within %v\n%s", hangDeadline, stacks)
+		return st, fmt.Errorf("reporters / Run did not finish within %v\n%s", hangDeadline, stacks)
 	}
 	if e := sink.Get(); e != nil {
-		return e
+		return st, e
 	}
 
 	// the dropped count carried by the Run error
@@ -471,71 +509,60 @@ func checkEnc(c EncCase, o *vf.Obs) error {
 	if runErr != nil {
 		var sd *aggregator.SomeSamplesDropped
 		if !errors.As(runErr, &sd) {
-			return fmt.Errorf("Run returned %q: neither nil nor a SomeSamplesDropped error (the sink never fails)", runErr)
+			return st, fmt.Errorf("Run returned %q: neither nil nor a SomeSamplesDropped error (the sink never fails)", runErr)
 		}
 		dropped = sd.Dropped
 		if dropped <= 0 {
-			return fmt.Errorf("Run returned a SomeSamplesDropped error with count %d", dropped)
+			return st, fmt.Errorf("Run returned a SomeSamplesDropped error with count %d", dropped)
 		}
 		if _, plain := runErr.(*aggregator.SomeSamplesDropped); !plain && !isCtxErrOrDropOnly(runErr) {
-			return fmt.Errorf("Run returned %q: an error besides the dropped-samples count although nothing failed", runErr)
+			return st, fmt.Errorf("Run returned %q: an error besides the dropped-samples count although nothing failed", runErr)
 		}
 	}
 
 	data, _, writes, _, _ := rec.snapshot()
 	if len(data) > 0 && data[len(data)-1] != '\n' {
-		return fmt.Errorf("%d reports, %d dropped: output of %d bytes does not end with a newline (last line incomplete)", total, dropped, len(data))
+		return st, fmt.Errorf("%d reports, %d dropped: output of %d bytes does not end with a newline (last line incomplete)", total, dropped, len(data))
 	}
 	var keys []string
 	if len(data) > 0 {
 		for i, ln := range bytes.Split(data[:len(data)-1], []byte("\n")) {
-			k, err := canon(ln)
+			k, seen := memo[string(ln)]
+			var err error
+			if !seen {
+				if k, err = canon(ln); err == nil && memo != nil {
+					memo[string(ln)] = k
+				}
+			}
 			if err != nil {
-				return fmt.Errorf("output line %d is not one valid JSON value (%v): %q", i+1, err, clip(string(ln)))
+				return st, fmt.Errorf("output line %d is not one valid JSON value (%v): %q", i+1, err, clip(string(ln)))
 			}
 			keys = append(keys, k)
 		}
 	}
 	got, want := msOf(keys), msOf(expected)
 	if n, ex := got.minus(want); n > 0 {
-		return fmt.Errorf("%d output lines (of %d) equal no reported sample / appear more often than reported, e.g. %s", n, len(keys), strings.Join(ex, "; "))
+		return st, fmt.Errorf("%d output lines (of %d) equal no reported sample / appear more often than reported, e.g. %s", n, len(keys), strings.Join(ex, "; "))
 	}
 	if int64(len(keys))+dropped != int64(total) {
-		return fmt.Errorf("%d lines written + %d counted as dropped = %d, but %d samples were reported (Run error: %v)",
+		return st, fmt.Errorf("%d lines written + %d counted as dropped = %d, but %d samples were reported (Run error: %v)",
 			len(keys), dropped, int64(len(keys))+dropped, total, runErr)
 	}
 	if err := rec.closedOnceAfterLastWrite("the data sink"); err != nil {
-		return err
+		return st, err
 	}
 	if closer != nil {
 		if n := closer.closes.Load(); n != 1 {
-			return fmt.Errorf("the SampleEncodeCloser was closed %d times (Close MUST be called)", n)
+			return st, fmt.Errorf("the SampleEncodeCloser was closed %d times (Close MUST be called)", n)
 		}
 		if closer.encodeAfterEnd.Load() {
-			return fmt.Errorf("Encode was called after the encoder had been closed")
+			return st, fmt.Errorf("Encode was called after the encoder had been closed")
 		}
 	}
 
-	if len(c.Reporters) >= 2 || c.Queue < total {
-		o.NonTrivial()
-	}
-	o.Class("kind_" + c.Kind)
-	o.ClassIf(len(c.Reporters) >= 2, "reporters_ge_2")
-	o.ClassIf(c.Queue < total, "queue_lt_reports")
-	o.ClassIf(c.Queue == 1, "queue_1")
-	o.ClassIf(dropped > 0, "drops")
-	o.ClassIf(dropped > 0 && len(keys) > 0, "drops_and_lines")
-	o.ClassIf(dropped == 0 && total > 0, "no_drops")
-	o.ClassIf(c.RunDelayUs > 0, "report_before_run")
-	o.ClassIf(writes >= 2, "several_writes")
-	o.ClassIf(len(want) < total, "duplicate_samples")
-	o.ClassIf(total >= 200, "reports_ge_200")
-	o.ClassIf(c.FlushUs > 0 && c.FlushUs <= 3000, "flush_le_3ms")
-	o.ClassIf(bytes.Contains(data, []byte(`\n`)), "escaped_newline")
-	o.Note("reports", total)
-	o.Note("lines", len(keys))
-	o.Note("dropped", dropped)
-	return nil
+	st = encStats{total: total, lines: len(keys), distinct: len(want), dropped: dropped, writes: writes, bytes: len(data),
+		escapedNewline: bytes.Contains(data, []byte(`\n`))}
+	return st, nil
 }
 
 // isCtxErrOrDropOnly reports whether a joined Run error consists of nothing but
